@@ -353,13 +353,26 @@ class SessionFailed(Exception):
 def _feed_writer(dataset_filler, plan):
     """feed_writer of write_multiprocessing: runs one worker's writes; returns [(id, accepted, exc type)]."""
     out = []
+    marking = os.environ.get("VERIF_MARK") == "1"
+    if marking:
+        from .fsrec import mark
+        wdir = str(dataset_filler._dataset_filler_context._relative_path_from_split)  # pylint: disable=protected-access
+        mark({"ev": "wb", "dir": wdir, "ids": [x[0] for x in plan]})
     with dataset_filler as ctx:
         for (i, split, md, kind) in plan:
+            if marking:
+                mark({"ev": "b", "name": "Write", "id": i, "w": wdir, "split": split, "md": md, "kind": kind})
             try:
                 ctx.write_example(values=example(i, kind), split=split, custom_metadata=MD[md])
                 out.append((i, True, ""))
             except Exception as exc:  # pylint: disable=broad-except
                 out.append((i, False, type(exc).__name__))
+            if marking:
+                mark({"ev": "e", "name": "Write", "id": i, "w": wdir, "acc": out[-1][1]})
+        if marking:
+            mark({"ev": "wx", "dir": wdir})
+    if marking:
+        mark({"ev": "we", "dir": wdir})
     return out
 
 
@@ -500,7 +513,9 @@ class Replayer:
             return False
         if name == "ExitFiller":
             self.exit_filler(args[0])
-            return args[0] == 0
+            return False
+        if name == "SessionDone":
+            return True
         if name == "MultiBegin":
             self.multi_begin(args[0])
             return False
